@@ -578,6 +578,11 @@ pub fn push_sweep(exps: &mut Vec<Exp>, depth: usize) {
     alpha.push(Act::EngConfig { by: "owner".into(), imr: None, mmr: None, plr: Some(D + 50_000), lf: None });
     alpha.push(Act::EngConfig { by: "owner".into(), imr: None, mmr: None, plr: None, lf: Some(D + 50_000) });
     alpha.push(Act::EngConfig { by: "owner".into(), imr: Some(10_000), mmr: Some(900_000), plr: None, lf: None });
+    // the market shut down and re-opened, the engine paused and resumed, between the other operations
+    alpha.push(Act::SetOpen { by: "owner".into(), v: 0, open: false });
+    alpha.push(Act::SetOpen { by: "owner".into(), v: 0, open: true });
+    alpha.push(Act::SetPause { by: "owner".into(), pause: true });
+    alpha.push(Act::SetPause { by: "owner".into(), pause: false });
     // degenerate inputs: zero amounts and zero leverage (an accepted one is then judged like any other operation)
     alpha.push(Act::Dep { t: "alice".into(), v: 0, amt: 0 });
     alpha.push(Act::Wd { t: "alice".into(), v: 0, amt: 0 });
@@ -1296,7 +1301,6 @@ pub fn run_c06(tier: Tier) -> i32 {
     ]);
     seeds.push(seed_funding_receiver_slightly_under(true));
     seeds.push(seed_funding_receiver_slightly_under(false));
-    seeds.push(seed_busy_market());
     let mut push = |c: Cfg, d: usize| {
         exps.push(Exp { setup: None, name: "liq".into(), cfg: c, traders: T3.to_vec(), seeds: seeds.clone(), alpha: Alpha::Dyn(alpha_c06), depth: d, init_mon: Value::Null, raw: false });
     };
@@ -1316,6 +1320,16 @@ pub fn run_c06(tier: Tier) -> i32 {
             push(mk(false, 62_500, 25_000, 250_000), 4);
             push(mk(true, 62_500, 25_000, 250_000), 4);
         }
+    }
+    // a busy market: 110 trading blocks inside the 15-minute window; liquidations right after it
+    {
+        let alpha = vec![Act::liq("liq", "alice"), Act::liq("liq", "bob"), Act::liq("liq", "carol"), Act::blk(15), Act::blk(1200)];
+        let mut e = Exp::new("liq, busy market", mk(true, 62_500, 25_000, 250_000), alpha.clone(), vec![seed_busy_market()], tier.pick(1, 2));
+        e.traders = T3.to_vec();
+        exps.push(e);
+        let mut e = Exp::new("liq, busy market", mk(false, 50_000, 50_000, 0), alpha, vec![seed_busy_market()], tier.pick(1, 2));
+        e.traders = T3.to_vec();
+        exps.push(e);
     }
     push_sweep(&mut exps, tier.pick(2, 3));
     push_dust(&mut exps, true, tier.pick(3, 4));
